@@ -12,4 +12,5 @@ use syn::{BinOp, Expr, Pat, Stmt, UnOp};
 include!("fnbody_types.rs");
 include!("fnbody_expr.rs");
 include!("fnbody_stmt.rs");
+include!("fnbody_gc.rs");
 include!("fnbody_top.rs");
